@@ -1,7 +1,7 @@
 (** Extraction of the AnimEncoder model (ExtrOcamlBasic only). *)
 From Coq Require Import ZArith List.
 From Coq Require Import ExtrOcamlBasic.
-From Webp Require Anim.Blend Anim.Canvas Anim.AnimDec Anim.AnimEncModel.
+From Webp Require Anim.Blend Anim.Canvas Anim.AnimDec Anim.AnimEncModel Anim.AnimEncLoops.
 
 Separate Extraction
   BinInt.Z.add BinInt.Z.mul BinInt.Z.sub BinInt.Z.opp BinInt.Z.div BinInt.Z.modulo
@@ -11,4 +11,5 @@ Separate Extraction
   Anim.AnimEncModel.playback Anim.AnimEncModel.find_changed_rect Anim.AnimEncModel.snap_to_even
   Anim.AnimEncModel.sanitize_k Anim.AnimEncModel.quality_to_max_diff
   Anim.AnimEncModel.pixels_similar Anim.AnimEncModel.lossless_px_ok Anim.AnimEncModel.lossy_px_ok
-  Anim.AnimEncModel.repaired.
+  Anim.AnimEncModel.repaired Anim.AnimEncModel.add_frame_e Anim.AnimEncModel.max_frames
+  Anim.AnimEncModel.no_fail Anim.AnimEncLoops.find_changed_rect_loops.
